@@ -86,7 +86,7 @@ def run(ctx):
               'the reserved rule variables are the documented ones: missing %s, extra %s' % (sorted(RESERVED - (lits | tbl)), sorted((lits | tbl) - RESERVED)))
     ctx.check('C12.X', not partial and eqs >= 1, irb.name, 'X7:reserved-name-partial-compare', irb.loc,
               'each reserved name is recognised by a whole-string equality (%d equalities; length-limited / substring comparisons: %s)' % (eqs, partial))
-    reject_if(ctx, 'C12.X', pr, lambda a: '"rspfile"' in dstr(a) and '"rspfile_content"' in dstr(a), False,
+    reject_if(ctx, 'C12.X', pr, lambda a: '"rspfile"' in dstr(deep_resolve(pr, a)) and '"rspfile_content"' in dstr(deep_resolve(pr, a)), False,
               'X8 rspfile and rspfile_content only together', 'X8:rspfile-pair')
     reject_if(ctx, 'C12.X', pp, lambda a: strip(a).get('k') == 'bin' and strip(a)['op'] == '<' and
               var_named('depth')(strip(a)['l']) and const_value(strip(a)['r']) == 0, True,
@@ -320,6 +320,20 @@ def run(ctx):
         ctx.check('C12.O2', mentions_field(e.get('recv'), 'Edge::env_') and 'this' in dstr(e['args'][2]) and
                   mentions_call(e['args'][1], 'Rule::GetBinding') or var_named('eval')(e['args'][1]), elv.name,
                   'edge-lookup:fallback-args', elv.where(e), 'the generic lookup starts at the edge\'s scope with the rule binding')
+    # every build statement gets the pool its own `pool` binding evaluates to (looked up by name, unknown names
+    # rejected): what is stored into Edge::pool_ in ParseEdge is the result of State::LookupPool on
+    # edge->GetBinding("pool") - not a value remembered from another statement
+    pe2 = prog.fn('ManifestParser::ParseEdge')
+    pstores = [(f, e, kind, rhs) for f, e, kind, rhs in field_writes(prog, 'Edge::pool_', [pe2])]
+    ctx.check('C12.O2', len(pstores) >= 1, pe2.name, 'pool:store-absent', pe2.loc, 'ParseEdge sets the pool of the edge')
+    for f, e, kind, rhs in pstores:
+        os_ = origins(pe2, rhs)
+        ok = bool(os_) and all(mentions_call(o, 'State::LookupPool') for o in os_)
+        names = [o2 for o in os_ if mentions_call(o, 'State::LookupPool') for x in walk(o) if x.get('k') == 'call' and x.get('name') == 'State::LookupPool'
+                 for a in (x.get('args') or []) for o2 in origins(pe2, a)]
+        ok = ok and bool(names) and all(mentions_call(o2, 'Edge::GetBinding') and '"pool"' in dstr(o2) for o2 in names)
+        ctx.check('C12.O2', ok, pe2.name, 'pool:not-from-own-binding', pe2.where(e),
+                  'edge->pool_ = LookupPool(edge->GetBinding("pool")): %s' % sorted({dstr(o)[:50] for o in os_}))
     # lookup order build, rule, file: an edge without bindings of its own shares the scope of its file
     # (ManifestParser::ParseEdge), so that scope may be asked *before* the rule only when it is the edge's own
     # (Edge::has_own_env_); otherwise the rule binding comes first and the shared scope last
@@ -362,7 +376,7 @@ def run(ctx):
                          lambda efs: any(pol is True and 'end()' in k and ('operator==' in k or '==' in k) for k, pol, atom in efs),
                          'Rule::GetBinding answers "no such binding" only when the key is not in bindings_',
                          'Rule::GetBinding:null-for-present-key')
-    ctx.floor('C12.O2', 16)
+    ctx.floor('C12.O2', 18)
 
     # ---- CF: expansion time by type --------------------------------------------------------------
     R('C12.CF', 'CF', 'file- and build-level bindings can only store an evaluated string (immediate '
